@@ -458,7 +458,7 @@ static void mutate(spif_obj_t o, int depth)
     case K_REGEXP: {
         spif_regexp_t r = (spif_regexp_t) o;
         if (m < 3) { vh_op("  mutate regexp: set_flags"); spif_regexp_set_flags(r, (spif_charptr_t) (m == 0 ? "i" : m == 1 ? "" : "s")); }
-        else { vh_op("  mutate regexp: pattern text + compile"); spif_str_done(SPIF_STR(r)); spif_str_init_from_ptr(SPIF_STR(r), (spif_charptr_t) "xyz"); spif_regexp_compile(r); }
+        else { vh_op("  mutate regexp: pattern text + compile"); spif_str_append_from_ptr(SPIF_STR(r), (spif_charptr_t) "|xyz"); spif_regexp_compile(r); }
         break; }
     default:
         if (IS_LIST(k)) {
